@@ -138,6 +138,9 @@ class GSim(mosaik_api_v3.Simulator):
             # a model that accepts any input (any_inputs) and leaves trigger / non-trigger to the type's defaults:
             # for a hybrid simulator every input of it is a non-trigger input
             self.meta['models']['A'] = {'public': True, 'params': [], 'attrs': ['po', 'eo'], 'any_inputs': True}
+            if self.beh['any_inputs_model'] == 'nt':
+                # ... and names one of its inputs as non-trigger: every other input of it is then a trigger input
+                self.meta['models']['A']['non-trigger'] = ['i']
         self.count = {}
         return self.meta
 
